@@ -143,12 +143,12 @@ u32 isdigit(u32 c) { return (c >= '0' && c <= '9'); }
 #endif
 /* diagnostics printed to std::cerr/std::cout (e.g. by ABG_ASSERT_NOT_REACHED): formatting is not the subject */
 #if defined(DECL__ZNSolsEi) && defined(HAVE_class_std__basic_ostream) && !defined(VERIF_OSTREAM_MODEL)
-struct class_std__basic_ostream *_ZNSolsEi(void *os, u32 v) { return (struct class_std__basic_ostream *)os; }
+void *_ZNSolsEi(void *os, u32 v) { return os; }
 #endif
 #if defined(DECL__ZStlsISt11char_traitsIcEERSt13basic_ostreamIcT_ES5_PKc) && defined(HAVE_class_std__basic_ostream) && !defined(VERIF_OSTREAM_MODEL)
-struct class_std__basic_ostream *_ZStlsISt11char_traitsIcEERSt13basic_ostreamIcT_ES5_PKc(void *os, u8 *s) { return (struct class_std__basic_ostream *)os; }
+void *_ZStlsISt11char_traitsIcEERSt13basic_ostreamIcT_ES5_PKc(void *os, u8 *s) { return os; }
 #endif
-#if defined(VERIF_NATIVE) && defined(HAVE_class_std__basic_ostream)
+#if defined(VERIF_NATIVE) && defined(HAVE_class_std__basic_ostream) && !defined(VERIF_OSTREAM_MODEL)
 /* native build of the translated unit: the stream objects only need an address */
 #ifdef DECLG__ZSt4cerr
 struct class_std__basic_ostream _ZSt4cerr;
